@@ -341,8 +341,8 @@ class Result:
         self.cov["checker_cmd"] = checker_cmd
         self.cov.setdefault("theorems", [])
         self.cov["theorems"] += pr.get("theorems", [])
-        self.cov["axioms_reported_by_Print_Assumptions"] = pr.get("axioms", [])
-        self.cov["print_assumptions_closed_count"] = pr.get("closed", 0)
+        self.cov["axioms_reported_by_Print_Assumptions"] = sorted(set(self.cov.get("axioms_reported_by_Print_Assumptions", [])) | set(pr.get("axioms", [])))
+        self.cov["print_assumptions_closed_count"] = self.cov.get("print_assumptions_closed_count", 0) + pr.get("closed", 0)
 
     def violation(self, payload, found_input, what):
         payload = dict(payload, property=self.prop, tier=self.tier, seed=self.seed, what=what,
